@@ -457,7 +457,7 @@ class Emit:
             p.next(); t = parse_type(p)
             ct = s.ctype(t)
             if ext or p.peek()[0] == 'eof' or p.at(','):
-                if ext and (name.startswith('@_ZTVN10__cxxabiv') or name == '@__dso_handle'): ext = False   # RTTI helper vtables: only their address is used
+                if ext and (name.startswith('@_ZTV') or name.startswith('@_ZTI') or name.startswith('@_ZTS') or name == '@__dso_handle'): ext = False   # library vtables/typeinfo: only their address is used   # RTTI helper vtables: only their address is used
                 if cid(name) in ('stdout', 'stderr', 'stdin'):
                     out.append('extern %s %s;' % (ct, s.gname(name))); continue
                 out.append('extern %s %s;' % (ct, s.gname(name)) if ext else '%s %s;' % (ct, s.gname(name))); continue
